@@ -26,7 +26,7 @@ EXPLANATION = (
     'accepts directions as (i8, i8) tuples or two-field structs and a step function taking two deltas or one pair; R4/R7 accept a '
     'fallible table builder returning Result or Option and a mask computed by the caller; the fill loop may live in a helper that only '
     'make_table / try_make_table call. R7 also reads the subset walk when it is spelled as a for loop over '
-    'std::iter::successors(Some(first), step).'
+    'std::iter::successors(Some(first), step). (R9) no remembered attack sets besides the keyed caches (= C02.R4).'
 )
 ASSUMPTIONS = [
     "rustc const evaluation of the generated constants and the chessfacts extractor are faithful",
